@@ -1,6 +1,7 @@
 package rules
 
 import (
+	"encoding/json"
 	"fmt"
 	"io"
 	"sort"
@@ -84,6 +85,18 @@ func Dump(c *Ctx, what string, w io.Writer) {
 				fmt.Fprintf(w, "noreturn %s\n", load.FnName(fn))
 			}
 		}
+	case "props":
+		type pj struct {
+			ID, Level, Technique, Explanation, DoesNotDecide string
+			Assumptions                                       []string
+		}
+		var out []pj
+		for _, id := range sortedKeys(Properties) {
+			p := Properties[id]
+			out = append(out, pj{p.ID, p.Level, p.Technique, p.Explanation, p.DoesNotDecide, p.Assumptions})
+		}
+		b, _ := json.MarshalIndent(out, "", " ")
+		fmt.Fprintln(w, string(b))
 	case "funcs":
 		for _, fn := range c.P.RepoFns {
 			fmt.Fprintf(w, "%s  %s\n", load.FnName(fn), c.P.FnPos(fn))
